@@ -142,9 +142,10 @@ Record srt := mk_srt {
   syn : list (bytes * bool);    (* CheckSyntax answers seen *)
   copt : cors_opt;              (* CORS options as given *)
   rcors : cors;                 (* sanitised (model side) *)
+  allwf : bool;                 (* every pattern accepted so far is well-formed (the properties' quantifier) *)
 }.
 #[export] Instance eta_srt : Settable _ :=
-  settable! mk_srt <rt; facs; unsup; pid; tc; live; uses; addonly; memo; rejected; frame; syn; copt; rcors>.
+  settable! mk_srt <rt; facs; unsup; pid; tc; live; uses; addonly; memo; rejected; frame; syn; copt; rcors; allwf>.
 
 (* cfg … <n> ic… cors <n> origins… <n> allow-headers… <n> exposed… max-age creds *)
 Definition no_cors : cors_opt :=
@@ -172,7 +173,7 @@ Definition init_rt (pid : bytes) (h : list line) : srt :=
   {| rt := new_router (arg 2 cfg) ic (argb 1 cfg) (arg 3 cfg); facs := []; unsup := false; pid := pid;
      tc := {| c_trace := argb 1 cfg; c_router := arg 2 cfg; c_ic := ic |};
      live := []; uses := []; addonly := true; memo := []; rejected := false; frame := []; syn := [];
-     copt := cors_of_cfg cfg; rcors := opt_default deny_cors (cors_sanitize (cors_of_cfg cfg)) |}.
+     copt := cors_of_cfg cfg; rcors := opt_default deny_cors (cors_sanitize (cors_of_cfg cfg)); allwf := true |}.
 
 Definition target_facade (s : srt) (t : bytes) : option facade :=
   if beqb t (bs "r") then None else alookup t (facs s).
@@ -745,7 +746,9 @@ Definition oracle_all (s s' : srt) (o : line) (r : list bytes) : list bytes :=
    else if beqb op (bs "handle") then handle_clauses s o r
    else if beqb op (bs "dump") then
      (* the invariants the tree theorems assume hold in this state (model state = dumped implementation state) *)
-     (if unsup s then [] else
+     (* judged while every registered pattern is well-formed: literal text with braces (e.g. "/{kind:") gives
+        literal siblings with the same first byte, outside the properties' quantifier *)
+     (if unsup s || negb (allwf s) then [] else
       let broken := negb (tree_inv_b (rtree (rt s))) in
       let cnt := negb (counters_ok (rtree (rt s))) in
       (if broken then map (fun p => p ++ bs ":tree-invariant-broken-in-reached-state") [bs "C01"; bs "C02"; bs "C03"; bs "C05"] else []) ++
@@ -778,7 +781,8 @@ Definition absorb_rt (s : srt) (o : line) (r : list bytes) : srt :=
       let '(mws, rest) := take_list (skipn 4 a) in
       let '(ms, _) := take_list rest in
       clear (s <| live := t_handle (tc s) (live s) p (HUser (arg 3 o)) (mws ++ facade_mws s (arg 1 o) ++ uses s) ms |>
-               <| frame := [] |>)
+               <| frame := [] |>
+               <| allwf := allwf s && match classify (c_ic (tc s)) p with PWf _ => true | _ => false end |>)
     else s <| rejected := true |>
   else if beqb op (bs "remove") then
     let p := full_pattern s (arg 1 o) (arg 2 o) in
@@ -826,7 +830,8 @@ Definition tags_rt (s s' : srt) (o : line) (r : list bytes) : list bytes :=
       else [bs "serve"; bs "serve-panic"]
     | _ => [bs "serve"]
     end
-  else if beqb op (bs "dump") then [bs "dump"; if tree_inv_b (rtree (rt s)) then bs "invariants-hold" else bs "invariants-broken"]
+  else if beqb op (bs "dump") then
+    [bs "dump"] ++ (if tree_inv_b (rtree (rt s)) then [bs "invariants-hold"] else bs "invariants-broken" :: inv_report (rtree (rt s)))
   else if beqb op (bs "handle") then [if obs_is r "ok" then bs "handle-ok" else bs "handle-rejected"]
   else if beqb op (bs "url") then [if obs_is r "ok" then bs "url-ok" else bs "url-err"]
   else [op].
